@@ -114,7 +114,7 @@ SIM = {
     "C10": _mk(["G4", "G3"], range(1001, 1004),
                code_env={1002: NOFAULT | {9012, ENV_CONN, ENV_UNHEALTHY}, 1003: NOFAULT | {9012, ENV_CONN, ENV_UNHEALTHY}}),
     "C13": _mk(["G3", "G2"], range(1301, 1306)),
-    "C18": _mk(["G1", "G2", "G4", "G6", "G7"], range(1801, 1811)),
+    "C18": _mk(["G1", "G2", "G4", "G6", "G7"], range(1801, 1811), gen=("GenGuards.v", "GenConfig.v", "GenStatus.v")),
     "C19": _mk(["G1", "G2", "G3", "G5", "G6", "G7"], range(1901, 1903)),
 }
 
@@ -221,6 +221,28 @@ def signature(pid, code, idx, trace):
     return "%s/%d/%s" % (pid, code, cause)
 
 
+def status_query():
+    """The groups of the regenerated status-writer table that fail group_ok (names the source positions when the C18 table
+    theorem no longer checks)."""
+    q = os.path.join(vlib.COQ, "StatusQuery.v")
+    with open(q, "w") as f:
+        f.write("From LE Require Import Base Locks Status GenStatus.\n"
+                "Definition bad := Eval vm_compute in map (fun g => (sg_fn g, sg_pos g)) (filter (fun g => negb (group_ok g)) status_groups).\n"
+                "Print bad.\nDefinition badl := Eval vm_compute in filter (fun x => match snd x with Some _ => false | None => true end) status_loads.\nPrint badl.\n")
+    vlib.run(["make", "-j16", "gen/GenStatus.vo", "Status.vo"], cwd=vlib.COQ, timeout=600)
+    rc, out = vlib.run(["coqc", "-Q", ".", "LE", "StatusQuery.v"], cwd=vlib.COQ, timeout=300)
+    for junk in ("StatusQuery.v", "StatusQuery.vo", "StatusQuery.glob", ".StatusQuery.aux", "StatusQuery.vos", "StatusQuery.vok"):
+        try:
+            os.remove(os.path.join(vlib.COQ, junk))
+        except OSError:
+            pass
+    if rc != 0:
+        return ""
+    txt = " ".join(out.split())
+    m = re.findall(r'\("([^"]+)"%?s?t?r?i?n?g?, "([^"]+)"', txt)
+    return "; ".join("%s at %s" % x for x in m)
+
+
 def sim_check(pid, tier, seed, extra_assumptions=()):
     d = SIM[pid]
     if not d.get("props"):
@@ -230,6 +252,10 @@ def sim_check(pid, tier, seed, extra_assumptions=()):
     with vlib.Lock():
         okb, blog = simlib.sim_build()
         gen_ok = prove(res, d["gen"], d["props"])
+        if pid == "C18" and res.tie_broken:
+            bad = status_query()
+            if bad:
+                res.tie_broken.append("status-writer table (gen/GenStatus.v): groups that fail the check of Status.v group_ok: " + bad)
         flavour = oracles(res, gen_ok)
     if not okb:
         res.tie_broken.append("simulator does not build against /repo: " + blog[-800:])
